@@ -246,3 +246,29 @@ def byte_boundary_tests(body, xpat):
                     any(_nosite(_sym(body, t.dest)) == v for t in u8try):
                 out.append((g, 1 if r[1] == {'Ok'} else -1))
     return out
+
+
+def variant_guards(body, variant):
+    """guards of `body` whose edge is taken exactly when some value is the unit enum variant `variant`, whether the code
+    writes `x == E::V` (a boolean guard) or `match x { E::V => .. }` (a discriminant guard): [(guard, tree of x)]"""
+    from analysis.sym import edge_guards, guard_variants
+    out = []
+    for g in edge_guards(body):
+        t, pol = g.atom()
+        if pol is not None:
+            c = _core(t)
+            if c[0] == 'bin' and c[1] in ('Eq', 'Ne') and ((c[1] == 'Eq') == pol):
+                for a, b in ((c[2], c[3]), (c[3], c[2])):
+                    if b[0] == 'agg' and b[1] == 'adt' and not b[3] and b[2].endswith('::' + variant):
+                        out.append((g, a))
+            continue
+        r = guard_variants(body, g)
+        if r is not None and r[1] == {variant}:
+            out.append((g, _nosite(r[0])))
+    return out
+
+
+def is_variant_at(body, blk, variant):
+    """some value is known to be the unit variant `variant` at block blk (a guard of variant_guards dominates blk)"""
+    from analysis import cfg as _cfg
+    return any(_cfg.edge_dominates(body, (g.block, g.target), blk) for g, x in variant_guards(body, variant))
